@@ -721,8 +721,12 @@ def run(ctx):
         add('normalize', dict(call='normalize_opb', constraint=raw), cmd('normalize_opb', [[list(t) for t in terms], op, deg]),
             thunk, pbc_to_py, ('normalize', raw), ('norm', tuple(terms), op, deg), nontrivial=(n >= 1))
 
-    replies = ctx.model.batch([j[2] for j in jobs])
-    for (stream, descr, req, thunk, post, search, key, nontrivial), rep in zip(jobs, replies):
+    def answered(jobs, size=400):
+        # the model is asked chunk by chunk: the replies of a chunk (whole clause lists) are dropped before the next one
+        for k in range(0, len(jobs), size):
+            part = jobs[k:k + size]
+            yield from zip(part, ctx.model.batch([j[2] for j in part]))
+    for (stream, descr, req, thunk, post, search, key, nontrivial), rep in answered(jobs):
         ctx.count(stream, key, nontrivial, sample=descr)
         if is_error(rep):
             ctx.violation('correspondence', 'model error', dict(input=descr, model=rep), False, site='model-error', cls=stream)
